@@ -56,6 +56,12 @@ pub fn judge(tree: &E, threads: Option<u32>, ops: &[Op]) -> Verdict {
         Ok(Err(_)) => return Verdict::Skip("does not compile (C12 decides that)"),
         Ok(Ok(c)) => c,
     };
+    // a second compiled expression stays alive during the whole history and is used in between
+    // (as are parse and compile): two compiled values never talk to each other
+    let other_tree = E::and(E::or(E::T(Tst::IName("other*".into())), E::T(Tst::Time(Which::C, Cmp::Lt, 3, TUnit::H))), E::and(E::A(Act::FPrint0("other.out".into())), E::A(Act::Printf(vec![FEl::Lit("other ".into()), FEl::F(Fld::Name)]))));
+    let other = catch(|| compile(&to_ast(&other_tree), &RunOptions::default())).ok().and_then(|r| r.ok());
+    let other_first = other.as_ref().and_then(|o| catch(|| (o.scheme("/dev/other"), o.io_map().map(|m| m.len()))).ok());
+    let mix = stable_hash(&(tree, threads, ops.len()));
     let mut first_map: Option<Option<Vec<(u32, String)>>> = None;
     let mut renders: HashMap<String, String> = HashMap::new();
     let mut order: Vec<String> = vec![];
@@ -69,6 +75,13 @@ pub fn judge(tree: &E, threads: Option<u32>, ops: &[Op]) -> Verdict {
         };
     }
     for (step, op) in ops.iter().enumerate() {
+        if (mix >> (step % 60)) & 1 == 1 {
+            if let Some(o) = &other {
+                let _ = catch(|| (o.scheme(&format!("/dev/other{step}\"")), o.io_map()));
+            }
+            let _ = catch(|| lipe_find_parser::parse("-name x -fprint y -print").map(|(o, t)| compile(&t, &o).map(|c| c.scheme("/dev/third"))));
+            let _ = catch(|| lipe_find_parser::parse("( -bogus").map(|_| ()).map_err(|e| e.to_string()));
+        }
         match op {
             Op::IoMap => {
                 let m = match catch(|| canon_map!()) {
@@ -114,6 +127,13 @@ pub fn judge(tree: &E, threads: Option<u32>, ops: &[Op]) -> Verdict {
     if let Some(f) = &first_map {
         if *f != canon_map!() {
             return Verdict::Fail("io_map() changed after rendering".into());
+        }
+    }
+    if let (Some(o), Some(first)) = (&other, &other_first) {
+        match catch(|| (o.scheme("/dev/other"), o.io_map().map(|m| m.len()))) {
+            Ok(now) if now == *first => {}
+            Ok(_) => return Verdict::Fail(format!("a second compiled expression, alive during the history of {tree:?}, renders differently after it than before it")),
+            Err(p) => return Verdict::Fail(format!("rendering the second compiled expression panicked: {p}")),
         }
     }
     // pairwise: programs differ in exactly the device string of the scan call
@@ -306,7 +326,7 @@ pub fn run(ctx: &Ctx) -> Report {
         .collect();
     Report {
         stats: total,
-        rule: "random compiled expressions (supported vocabulary, <=12 nodes) x histories of 2..6 operations from {scheme(p), io_map()} with p from benign paths and hostile strings (quotes, backslashes, parentheses, comment characters, blanks, non-ASCII, empty, 2-10 kB), modelled as vec(op) + interpreter. Oracle: scheme(p) twice -> identical text (also re-rendered after the whole history); for p != q the two programs, read by the independent reader, differ in exactly one leaf, the first argument of the lipe-scan call, decoding to p resp. q; io_map() is equal at every call. Also: pairs of equal-length paths whose std-hasher values agree in the low 32 bits (found by a birthday search at run time, six ways of feeding the hasher) and pairs that weak fingerprints confuse, rendered one right after the other. Non-trivial: history with >=2 distinct paths of which one is hostile. Distinct: by (tree, history).".into(),
+        rule: "random compiled expressions (supported vocabulary, <=12 nodes) x histories of 2..6 operations from {scheme(p), io_map()} with p from benign paths and hostile strings (quotes, backslashes, parentheses, comment characters, blanks, non-ASCII, empty, 2-10 kB), modelled as vec(op) + interpreter. Oracle: scheme(p) twice -> identical text (also re-rendered after the whole history); for p != q the two programs, read by the independent reader, differ in exactly one leaf, the first argument of the lipe-scan call, decoding to p resp. q; io_map() is equal at every call; a second compiled expression is alive during the whole history and is rendered, and parse/compile are called, between the operations of about half of the steps (neither value may be affected by the other). Also: pairs of equal-length paths whose std-hasher values agree in the low 32 bits (found by a birthday search at run time, six ways of feeding the hasher) and pairs that weak fingerprints confuse, rendered one right after the other. Non-trivial: history with >=2 distinct paths of which one is hostile. Distinct: by (tree, history).".into(),
         assumptions: vec!["the harness's reader implements Guile's string syntax".into()],
         exhaustive: false,
     }
